@@ -2659,3 +2659,6 @@ M("C05", "first-loop-body-only", PG,
   "                remove_dummy_start_and_end_events_from_nested_graphs(\n                    node.sub_graph\n                )",
   "                return remove_dummy_start_and_end_events_from_nested_graphs(\n                    node.sub_graph\n                )",
   "R5.4", "only the first loop body of a level is cleaned (seed C05-q)")
+T("C01", "twin-no-incoming-registration", CNG,
+  '    in_node.update_node_list_with_node(out_node, "incoming")\n', "",
+  "Node.incoming is never read by the pipeline (differential validation)")
